@@ -160,6 +160,13 @@ def upgrade_points():
     cmds += qs + [{"c": "upgrade", "d": {}}] + qs
     cmds += [{"c": "offer", "initial": complete([b3, b4])}, {"c": "hb"}, {"c": "hb"}, {"c": "hb", "budget": 1}] + qs
     cmds += [{"c": "upgrade", "d": {"lazy": True}}] + qs + [{"c": "hb", "budget": 1}] + qs + [{"c": "hb"}] * 4 + qs
+    # every configuration flag away from its default, then upgrades without / with an unrelated argument:
+    # nothing may fall back to a default
+    cmds += [{"c": "set_config", "d": {"syncing": False, "api": False, "gate": False, "lazy": True, "burn": True, "thr": 7,
+                                       "fees": {"ub": 3, "ur": 2, "um": 50, "bal": 4, "balm": 9, "pct": 1, "pctm": 2, "hb": 5, "hr": 1, "hm": 60, "sb": 7, "sp": 2}}},
+             q("config"), {"c": "upgrade", "d": {}}, q("config"), {"c": "hb"}, {"c": "hb"}, q("config"),
+             {"c": "upgrade", "d": {"thr": 6}}, q("config"), {"c": "hb"}, q("info"),
+             {"c": "set_config", "d": {"syncing": True, "api": True}}, {"c": "upgrade", "d": {}}, q("config"), {"c": "hb"}, {"c": "hb"}] + qs
     return w.scenario("directed-upgrade-points", {"thr": 2, "seed": 16}, cmds)
 
 
